@@ -159,6 +159,10 @@ def died_in_code_under_test(r):
     source file of the library."""
     if r.returncode < 0:
         return "killed by signal %d" % (-r.returncode)
+    if r.returncode == 102:
+        for line in reversed(r.stdout.splitlines()):
+            if line.startswith("HARNESS-HANG "):
+                return "a call into the library never returned (%s)" % line[len("HARNESS-HANG "):]
     if r.returncode == 101:
         for line in reversed(r.stdout.splitlines()):
             if line.startswith("HARNESS-PANIC "):
